@@ -201,6 +201,7 @@ Definition show_body (b : body) : bytes :=
   | BValTable q => str "valtable " ++ show_tpls q
   | BValArray q => str "valarray " ++ show_tpls q
   | BValConst f => str "const " ++ show_fval f
+  | BValNeg => str "neg"
   | BValOther => str "other"
   end.
 Definition show_rule (r : rule) : bytes :=
